@@ -218,3 +218,16 @@ Example C04_refusing_transport :
      Send 100000 0 (ack 7 0 [] []); Refused 100000 0;
      Send 10100000 0 (ack 7 0 [] [])].
 Proof. vm_compute. reflexivity. Qed.
+
+(* a resource that returns ONE pre-built response object for every request (the defect repaired in 75465d6: the remembered
+   reply used to be that object itself): each copy gets the ACK of ITS request, to ITS endpoint, with ITS token *)
+Example C04_reused_response_object :
+  outs (run (init 100 2000000)
+         [Recv (req 0 CON 7 [1] HCached); Recv (req 1 CON 7 [2] HCached); Recv (req 0 CON 8 [3] HCached);
+          Recv (req 0 CON 7 [1] HCached); Recv (req 1 CON 7 [2] HCached)]) =
+    [Start 0 0 0 7 [1]; Send 0 0 (ack 7 69 [1] [99; 97; 99; 104; 101; 100]);
+     Start 0 1 1 7 [2]; Send 0 1 (ack 7 69 [2] [99; 97; 99; 104; 101; 100]);
+     Start 0 2 0 8 [3]; Send 0 0 (ack 8 69 [3] [99; 97; 99; 104; 101; 100]);
+     Send 0 0 (ack 7 69 [1] [99; 97; 99; 104; 101; 100]);
+     Send 0 1 (ack 7 69 [2] [99; 97; 99; 104; 101; 100])].
+Proof. vm_compute. reflexivity. Qed.
